@@ -20,6 +20,7 @@ EXPLANATION = (
     'resume_node::notify resumes only on the second of its two notifications (atomic increment == 2); coroutine creation takes an '
     'arena reference that the cleanup action drops.  The stack switch itself (co_context) and continuation on exactly one thread '
     'as a runtime fact are NOT decided.')
+EXPLANATION += ' Added after the seeded-change rounds: ' + "D3 also: the owner's recall flag is raised (release) before the waiting-threads monitor is notified."
 ASSUMPTIONS = ['__TBB_RESUMABLE_TASKS configuration (Linux)', 'co_context::resume switches stacks and returns when resumed']
 ND = ['the stack switch itself (co_context)', 'continuation on exactly one thread as a runtime fact']
 
